@@ -78,6 +78,58 @@ func runCorpus(prop, repo, verif string) map[string]any {
 			missed = append(missed, it.name)
 		}
 	}
+	// the must-pass part: behaviour-preserving edits of this property's code (harmless/<id>): the check should still pass.
+	// An alarm here is a false alarm of the machinery (a contract that does not survive the refactoring), listed by name.
+	var okPass, okAlarm []string
+	if ents, err := os.ReadDir(filepath.Join(verif, "harmless")); err == nil {
+		for _, e := range ents {
+			dir := filepath.Join(verif, "harmless", e.Name())
+			mb, err := os.ReadFile(filepath.Join(dir, "meta.json"))
+			if err != nil {
+				continue
+			}
+			var meta struct {
+				Property string `json:"property"`
+			}
+			json.Unmarshal(mb, &meta)
+			if meta.Property != prop {
+				continue
+			}
+			cp := filepath.Join(scratch, "repo")
+			os.RemoveAll(cp)
+			if b, err := exec.Command("rsync", "-a", "--exclude", ".git", repo+"/", cp+"/").CombinedOutput(); err != nil {
+				skipped = append(skipped, "harmless/"+e.Name()+": copy failed: "+firstLines(string(b), 1))
+				continue
+			}
+			pc := exec.Command("patch", "-p1", "-s", "-f", "-i", filepath.Join(dir, "patch.diff"))
+			pc.Dir = cp
+			if b, err := pc.CombinedOutput(); err != nil {
+				skipped = append(skipped, "harmless/"+e.Name()+": patch does not apply to the current tree: "+firstLines(string(b), 1))
+				continue
+			}
+			c := exec.Command(self, "check", "--property", prop, "--tier", "quick", "--repo", cp, "--verif", verif, "--no-evidence", "--no-replay", "--out", filepath.Join(scratch, "out"))
+			b, _ := c.CombinedOutput()
+			if c.ProcessState != nil && c.ProcessState.ExitCode() == 0 {
+				okPass = append(okPass, "harmless/"+e.Name())
+				continue
+			}
+			first := ""
+			for _, l := range strings.Split(string(b), "\n") {
+				if strings.Contains(l, "failed obligation:") || strings.HasPrefix(l, "UNSUPPORTED") || strings.HasPrefix(l, "CHECK-ERROR") {
+					first = strings.TrimSpace(l)
+					break
+				}
+			}
+			okAlarm = append(okAlarm, "harmless/"+e.Name()+" -> "+truncate(first, 200))
+		}
+	}
+	if len(okPass)+len(okAlarm) > 0 {
+		out["must_pass"] = map[string]any{
+			"passed":       okPass,
+			"false_alarms": okAlarm,
+			"summary":      fmt.Sprintf("%d of %d behaviour-preserving edits of this property's code leave the check passing", len(okPass), len(okPass)+len(okAlarm)),
+		}
+	}
 	sort.Strings(detected)
 	out["detected"] = detected
 	out["missed"] = missed
